@@ -60,6 +60,23 @@ func init() {
 					pickRunTo(c.Tape, w)
 				}
 			}
+			// programs with more than one Workflow object: a second workflow created and
+			// run while the first is running, or a Go-function task that runs a nested
+			// workflow (package-level state - loggers, counters - is shared by them)
+			switch c.Tape.Choose(simrt.StGen, 8, 0) {
+			case 1:
+				w.Parallel = true
+				w.Sources["second_in.txt"] = "input of the second workflow\n"
+				c.Probe("two-workflows-in-parallel")
+			case 2:
+				for i := range w.Nodes {
+					if n := &w.Nodes[i]; n.Kind == KProc && n.Custom != 0 && len(n.Ins) > 0 && !n.Ins[0].Join {
+						n.Nest = 1 + c.Tape.Choose(simrt.StGen, 2, 0)
+						c.Probe("nested-workflow")
+						break
+					}
+				}
+			}
 			// a third of the cases run with scipipe's default logging (audit level to
 			// stdout + log file) instead of error level: the loggers then really write
 			w.FullLogging = c.Tape.Choose(simrt.StGen, 3, 0) == 1
